@@ -292,17 +292,18 @@ def run_lines(cmd, timeout=1800, env=None):
     rc, out = sh(cmd, timeout=timeout, env=env)
     return rc, out.splitlines()
 
-def run_lines_sharded(cmd, casefile, shards=12, timeout=1800, env=None):
+def run_lines_sharded(cmd, casefile, shards=12, timeout=1800, env=None, min_per_shard=4):
     """a line-oriented driver whose output for a case depends on that case's line only: the case file is cut into contiguous shards, the
     shards run in parallel, the outputs are concatenated in order. returns (worst rc, lines)"""
     from concurrent.futures import ThreadPoolExecutor
     lines = [l for l in open(casefile).read().splitlines() if l.strip()]
-    if len(lines) < 4 * shards:
+    if len(lines) < min_per_shard * shards:
         return run_lines(cmd + [casefile], timeout=timeout, env=env)
-    n = (len(lines) + shards - 1) // shards
+    # dealt out round robin (expensive cases cluster at the end of a file); every output line starts with the id of its case, so the
+    # original order is restored afterwards
     files = []
     for k in range(shards):
-        part = lines[k * n:(k + 1) * n]
+        part = lines[k::shards]
         if not part: continue
         f = f"{casefile}.shard{k}"; open(f, 'w').write('\n'.join(part) + '\n'); files.append(f)
     with ThreadPoolExecutor(max_workers=shards) as ex:
@@ -310,7 +311,18 @@ def run_lines_sharded(cmd, casefile, shards=12, timeout=1800, env=None):
     for f in files:
         try: os.remove(f)
         except OSError: pass
-    return max(rc for rc, _ in outs), [l for _, ls in outs for l in ls]
+    by_id, other = {}, []
+    for _, ls in outs:
+        for l in ls:
+            cid = l.split(' ', 1)[0]
+            by_id.setdefault(cid, []).append(l)
+    ordered, seen = [], set()
+    for l in lines:
+        cid = l.split(' ', 1)[0]
+        if cid in seen: continue
+        seen.add(cid); ordered += by_id.pop(cid, [])
+    for cid, ls in by_id.items(): ordered += ls          # lines that do not start with a case id (self-check failures) go last
+    return max(rc for rc, _ in outs), ordered
 
 # ------------------------------------------------------------------ comparison
 def split_oracle(lines):
